@@ -531,7 +531,9 @@ reg("C11", xc("exploration",
 reg("C12", xc("exploration",
     "Same keyed types, every value: instance handle == own key hash per 7.6.8 (zero padded when the MAXIMUM size of the key holder is <= 16, "
     "MD5 otherwise); a mismatch is explained by the smallest set of named deviations, each a finding.",
-    "every value of every keyed type of the lattice", ["XCDR version and member order of the key stream are not fixed by the property: both accepted"], (1000, 30)))
+    "every value of every keyed type of the lattice; every user DATA submessage of the end-to-end scenarios (simcheck s_keys.rs: the "
+    "PID_KEY_HASH dust-dds puts on the wire is the handle the writer assigned, and single-DATA samples carry one)",
+    ["XCDR version and member order of the key stream are not fixed by the property: both accepted"], (1000, 30), also=["simcheck"]))
 reg("C13", xc("exploration",
     "Field tables of the 4 announcement kinds with per-field boundary lattices: all-default + every single-field variation (thorough: every "
     "pair of variations), each put on the wire in 5 ways (LE/BE, defaults sent or omitted, reversed order) and with 5 unknown parameter ids "
